@@ -34,6 +34,9 @@ from cell_type_mapper.taxonomy.taxonomy_tree import (
     TaxonomyTree)
 
 
+import cell_type_mapper.utils.verif_hooks as verif_hooks
+
+
 def create_p_value_mask_file(
         precomputed_stats_path,
         dst_path,
@@ -328,6 +331,8 @@ def _p_values_worker(
     n_pairs = len(idx_values)
     dense_mask = np.zeros((n_pairs, n_genes))
 
+    verif_hooks.gate('pmask.before', col0=int(col0))
+
     for pair_ct, idx in enumerate(idx_values):
         sibling_pair = idx_to_pair[idx]
         level = sibling_pair[0]
@@ -386,6 +391,8 @@ def _p_values_worker(
 
         dense_mask[pair_ct, valid] = wgt[valid]
 
+    verif_hooks.gate('pmask.mid', col0=int(col0))
+
     sparse_mask = scipy_sparse.csr_matrix(dense_mask)
 
     indices = np.copy(sparse_mask.indices)
@@ -410,6 +417,8 @@ def _p_values_worker(
             'data', data=data, dtype=np.float16)
         out_file.create_dataset(
             'min_row', data=idx_values.min())
+
+    verif_hooks.gate('pmask.after', col0=int(col0))
 
 
 def _merge_masks(
